@@ -562,7 +562,9 @@ impl DecodedPixelData<'_> {
             * bytes_per_sample;
         let frame_start = frame_length * frame as usize;
         let frame_end = frame_start + frame_length;
-        if frame_end > (*self.data).len() {
+        // a frame without any samples (Rows or Columns of 0) does not exist either:
+        // otherwise every frame number up to Number of Frames would be "in range"
+        if frame_length == 0 || frame_end > (*self.data).len() {
             FrameOutOfRangeSnafu {
                 frame_number: frame,
             }
